@@ -385,7 +385,7 @@ def run(ctx):
             n_ops = rng.randint(1, 6)
             for oi in range(n_ops):
                 cur = rng.choice(states) if rng.random() < 0.5 else source
-                kind = rng.choice(["clone", "visibility", "visibility", "camel", "extend", "fix"])
+                kind = rng.choice(["clone", "visibility", "visibility", "camel", "extend", "fix", "no-transform"])
                 step = {"op": kind, "on": cur.label}
                 seq.append(step)
                 witness = dict(base_witness, sequence=list(seq))
@@ -393,7 +393,14 @@ def run(ctx):
                 ctx.count("operations:" + kind)
                 removes = False
                 try:
-                    if kind == "clone":
+                    if kind == "no-transform":
+                        # the list of enabled transforms may be empty: the result still is a schema of its own
+                        res = State(transform_schema(cur.schema), cur.ir, cur.idmap, "s%d" % len(states))
+                        if res.schema is cur.schema:
+                            ctx.violation("result:no-transform:returns-the-source-schema-itself", dict(witness, step=step),
+                                          "transform_schema(schema) with no transform is documented to work on a clone")
+                            break
+                    elif kind == "clone":
                         res = State(cur.schema.clone(), cur.ir, cur.idmap, "s%d" % len(states))
                     elif kind == "fix":
                         c = cur.schema.clone()
